@@ -189,7 +189,7 @@ class Extremely(Hedge):
             $h(x) = \begin{cases} 2x^2 & \mbox{if } x \le 0.5 \cr 1-2(1-x)^2 & \mbox{otherwise} \cr \end{cases}$
         """
         x = scalar(x)
-        y = np.where(x <= 0.5, 2 * x**2, 1 - 2 * (1 - x) ** 2)
+        y = np.where(x <= 0.5, 2 * np.square(x), 1 - 2 * np.square(1 - x))
         return y
 
 
